@@ -257,6 +257,7 @@ static void run_case(vh_ctx *c)
 {
   gcase g;
   size_t n, p, ny, nlv, nreal, nf, i, j, k, a;
+  libsci_verif_nprocs = (c->idx & 1) ? 1 : 0;      /* the machine may report a single processor (H1): PLS must not care */
   PLSMODEL *m = NULL;
   matrix *mx0, *my0, *mxf = NULL;
   ldm *E = NULL;
@@ -433,7 +434,8 @@ static void run_case(vh_ctx *c)
     ld sc = g.nysc ? g.ysc[0] : 1, mu = g.nym ? g.ym[0] : 0;
     for (a = 1; a <= nlv; a++) {
       dvector *bet; ldm *PW = ldm_new(a, a), *inv = NULL; ld wf = 0, bf = 0, invf = 0, pwf, amp; int set;
-      initDVector(&bet);
+      /* the coefficient vector in three states: empty, stale with the right length (a vector reused for a = 1, 2, ...), stale with another length */
+      { unsigned how = (unsigned)((c->idx + (long)a) % 3); size_t z; if (how == 0) initDVector(&bet); else { NewDVector(&bet, how == 1 ? p : p + 2); for (z = 0; z < bet->size; z++) bet->data[z] = 3.5 - (double)z; vh_obs(how == 1 ? "betas_output_stale_same_length" : "betas_output_stale_other_length", 1); } }
       PLSBetasCoeff(m, a, bet);
       if (bet->size != p) { vh_fail(c, "PLSBetasCoeff|size", "%zu coefficients for %zu variables", bet->size, p); DelDVector(&bet); ldm_free(PW); break; }
       /* null latent variables contribute nothing: the coefficient form is W_r (P_r'W_r)^-1 b_r over the real ones (identity block otherwise) */
